@@ -8,65 +8,51 @@ fragment of the language; the remaining operators are covered operator-wise in C
 the two correspondence streams. Guard: the engine has no duplicate-labelset check (known
 finding KF-no-duplicate-check), so agreement is with the reference *without* that check.
 -/
-import PromqlVerif.Proofs.EngInd
+import PromqlVerif.Proofs.Agg
 namespace PromqlVerif.C01
 open PromqlVerif Val
 
 variable {V : Type} [Val V]
 
-/-- the fragment: selectors, range functions over matrix selectors, pointwise math functions,
-unary minus / plus, parentheses - arbitrarily nested -/
-inductive Frag : Expr V → Prop
-  | vsel (s : VSel) : Frag (.vsel s)
-  | rangefn (fn : String) (s : VSel) (r : Int)
-      (h : (engineFuncs.contains fn && rangeFnNames.contains fn) = true) : Frag (.call fn [.msel s r])
-  | neg (a : Expr V) : Frag a → Frag (.neg a)
-  | pos (a : Expr V) : Frag a → Frag (.pos a)
-  | paren (a : Expr V) : Frag a → Frag (.paren a)
+/-- **C01 on the typed fragment** (`Proofs/TheoremB.lean`): number literals, `time()`, `pi()`,
+selectors (any matchers, offset, @), range functions over matrix selectors, pointwise math
+functions, `scalar()`, `vector()`, `clamp*` with scalar-typed bounds, unary minus / plus,
+parentheses, step-invariant wrappers, and every arithmetic / comparison operator with a scalar on
+either or both sides (with and without `bool`) - arbitrarily nested. For every storage, lookback,
+window start and step time the engine builds an operator, and what it emits at the step, read
+through its series list, is exactly the reference value (in the same order); sample IDs index
+the series list. Guard `hq`: agreement is with the reference without its duplicate-labelset
+check, which the engine lacks (known finding KF-no-duplicate-check). -/
+theorem engine_equals_reference_on_fragment (c : Ctx V) (hq : c.q.noDupCheck = true) (b : Bool) (e : Expr V)
+    (h : Frag b e) : ∃ o, engOp c e = .ok o ∧ Inv c b e o := frag_inv c hq b e h
 
-/-- the engine operator of `e` exists and, read through its series list, equals the reference
-value at every step -/
-def Agrees (c : Ctx V) (e : Expr V) : Prop :=
-  ∃ o, engOp c e = .ok o ∧ ∀ t, (o.den t).map Value.vec = eval c t e
+/-- spelled out for vector-typed expressions -/
+theorem vector_fragment (c : Ctx V) (hq : c.q.noDupCheck = true) (e : Expr V) (h : Frag false e) (t : Int) :
+    ∃ o xs, engOp c e = .ok o ∧ o.step t = .ok xs ∧ (∀ x ∈ xs, x.1 < o.series.length) ∧
+      eval c t e = .ok (.vec (denote o.series xs)) := by
+  obtain ⟨o, ho, _, hstep⟩ := frag_inv c hq false e h
+  obtain ⟨xs, h1, h2, h3⟩ := hstep t
+  exact ⟨o, xs, ho, h1, h2, by simpa using h3⟩
 
-theorem frag_agrees (c : Ctx V) (e : Expr V) (h : Frag e) : Agrees c e := by
-  induction h with
-  | vsel s =>
-    refine ⟨engSelector c s false, by rw [engOp], fun t => ?_⟩
-    rw [engSelector_den, eval]; rfl
-  | rangefn fn s r hfn =>
-    have h2 : rangeFnNames.contains fn = true := by
-      simp only [Bool.and_eq_true] at hfn; exact hfn.2
-    refine ⟨engRangeFn c fn s r, by rw [engOp]; rw [if_pos hfn], fun t => ?_⟩
-    rw [engRangeFn_den, eval]
-    rw [if_pos h2]; rfl
-  | neg a _ ih =>
-    obtain ⟨o, ho, hden⟩ := ih
-    refine ⟨_, by rw [engOp]; simp only [ho, bind, Except.bind, pure, Except.pure]; rfl, fun t => ?_⟩
-    rw [eval, ← hden t]
-    unfold OpSem.den
-    cases hs : o.step t with
-    | error er => simp [Except.map, bind, Except.bind, hs]
-    | ok xs =>
-      simp only [Except.map, bind, Except.bind, pure, Except.pure, hs]
-      rw [denote_map o.series Labels.dropName neg xs]
-  | pos a _ ih =>
-    obtain ⟨o, ho, hden⟩ := ih
-    exact ⟨o, by rw [engOp]; exact ho, fun t => by rw [eval]; exact hden t⟩
-  | paren a _ ih =>
-    obtain ⟨o, ho, hden⟩ := ih
-    exact ⟨o, by rw [engOp]; exact ho, fun t => by rw [eval]; exact hden t⟩
+/-- ... and for scalar-typed ones: exactly one label-less sample per step, the reference value -/
+theorem scalar_fragment (c : Ctx V) (hq : c.q.noDupCheck = true) (e : Expr V) (h : Frag true e) (t : Int) :
+    ∃ o s, engOp c e = .ok o ∧ o.series = [[]] ∧ o.step t = .ok [(0, s)] ∧ eval c t e = .ok (.scal s) := by
+  obtain ⟨o, ho, hser, hstep⟩ := frag_inv c hq true e h
+  obtain ⟨xs, h1, _, h3⟩ := hstep t
+  simp only [if_true] at h3
+  obtain ⟨s, rfl, hev⟩ := h3
+  exact ⟨o, s, ho, hser rfl, h1, hev⟩
 
-/-- **C01 on the fragment**: for every storage, lookback, window position and every expression
-of the fragment, the engine's result at a step is the reference result at that step -/
-theorem engine_equals_reference_on_fragment (c : Ctx V) (e : Expr V) (h : Frag e) (t : Int) :
-    ∃ o, engOp c e = .ok o ∧ (o.den t).map Value.vec = eval c t e := by
-  obtain ⟨o, ho, hd⟩ := frag_agrees c e h
-  exact ⟨o, ho, hd t⟩
-
-/-- non-vacuity: `-rate(m{a="x"}[1m] offset 30s)` lies in the fragment -/
-example : Frag (.neg (.call "rate" [.msel ⟨[⟨.eq, "__name__", "m"⟩, ⟨.eq, "a", "x"⟩], 30000, none, none⟩ 60000]) : Expr V) :=
-  .neg _ (.rangefn "rate" _ _ (by decide))
+/-- non-vacuity: `clamp_min(-rate(m{a="x"}[1m] offset 30s), scalar(n) * 2) > bool time()` is in the fragment -/
+example : Frag false
+    (.bin ">" true ⟨.oneToOne, false, [], []⟩
+      (.call "clamp_min" [.neg (.call "rate" [.msel ⟨[⟨.eq, "__name__", "m"⟩, ⟨.eq, "a", "x"⟩], 30000, none, none⟩ 60000]),
+        .bin "*" false ⟨.oneToOne, false, [], []⟩ (.call "scalar" [.vsel ⟨[⟨.eq, "__name__", "n"⟩], 0, none, none⟩]) (.num (ofInt 2))])
+      (.call "time" []) : Expr V) :=
+  .binVS ">" true _ _ _ (by decide)
+    (.clampMin _ _ (.neg _ _ (.rangefn "rate" _ _ (by decide)))
+      (.binSS "*" false _ _ _ (by decide) (.scalar _ (.vsel _)) (.num _)))
+    .time
 
 /-- a creation error is always "unsupported": exactly the queries that fall back -/
 theorem creation_error_class (c : Ctx V) (e : Expr V) (er : Err) (h : engOp c e = .error er) : er = .unsupported :=
